@@ -84,7 +84,17 @@ pub fn generate(thorough: bool, seed: u64, em: &mut Emitter) {
             None => continue,
         };
         let redact = redaction_set(r, &claims, &marks);
-        let mut case = present_case(&tok, &token, &clear, &redact, Value::Null, 1, json!({"kbpol": Value::Null}));
+        // one case in three is a session: build, redact more on the same Holder, build again (twice) - what was
+        // redacted after an earlier build must be withheld by the later ones
+        let staged = i % 3 == 1 && !redact.is_empty();
+        let mut case = present_case(&tok, &token, &clear, &redact, Value::Null, if staged { 3 } else { 1 }, json!({"kbpol": Value::Null}));
+        if staged {
+            let cut1 = r.below(redact.len());
+            let cut2 = cut1 + r.below(redact.len() - cut1 + 1);
+            case["redact"] = json!(redact[..cut1].to_vec());
+            case["redact_after"] = json!([redact[cut1..cut2].to_vec(), redact[cut2..].to_vec()]);
+            case["tag"] = json!("staged_redaction");
+        }
         case["sentinels"] = Value::Array(sentinels);
         case["judge_disclosures"] = json!(true);
         // the issuer JWT itself must not contain any sentinel: decoded header and payload
